@@ -8,7 +8,7 @@ from argcommon import *
 def run(tier):
     c = Check("C03", tier)
     exe = driver("asan")
-    cfgs, beh = model_behaviours(c, tier, cfgsel=[1, 3, 5, 7, 8] if tier == "quick" else None)
+    cfgs, beh = model_behaviours(c, tier, cfgsel=[1, 3, 5, 7, 8])
     script = os.path.join(c.wd, "replay.ndjson")
     n = behaviours_script(cfgs, beh, script, select=lambda b: b["valid"])
     c.notes.append("R: %d distinct spellings of valid lines replayed" % n)
